@@ -1591,8 +1591,13 @@ class Verifier(InspectMixin, QuantMixin, LoopMixin, ExprMixin, CallMixin, StmtMi
             # a module-level / external global named from the contract module (e.g. flask.request)
             if module is None:
                 raise Unsupported(f'modifies entry {loc}: unknown root {parts[0]}')
+            # everything but the last attribute is an ordinary expression of the contract module (flask.request)
             fr = Frame(None, module)
-            v, path = self.lookup_name(parts[0], fr, None), parts[1:]
+            pre = parts if kind != 'attr' else parts[:-1]
+            v = self.ev(ast.parse('.'.join(pre), mode='eval').body, fr)
+            path = [] if kind != 'attr' else parts[-1:]
+            if kind == 'attr':
+                return ('attr', smt.simp(Val.r(v)), path[0], Val.is_ref(v))
         def step(v, a):
             # raw cell read (no branching, no AttributeError): an absent cell names no object - see the guard
             return smt.simp(z3.Select(self.attr_array(a), Val.r(v)))
